@@ -51,6 +51,7 @@ type Contract struct {
 	Lemma    bool
 	Splits   []string
 	rawMods  []rawMod
+	Asserts  map[string][]*Clause // cut points: "before <callee>#<n>" → clauses checked, then assumed
 	Witness  map[string]map[string]SExpr // clause name → existential variable → witness term (tried at return sites)
 }
 
@@ -506,6 +507,23 @@ func (e *Engine) parseContracts() {
 					cur.Flags[f] = true
 				}
 			}
+		case "assert":
+			// assert before <callee>#<n> <name>: <expr>
+			if cur == nil {
+				perr(l, "assert outside a contract")
+				continue
+			}
+			f := strings.Fields(rest)
+			if len(f) < 3 || f[0] != "before" {
+				perr(l, "assert before <callee>#<n> name: expr")
+				continue
+			}
+			key := f[1]
+			body := strings.TrimSpace(rest[strings.Index(rest, f[1])+len(f[1]):])
+			if cur.Asserts == nil {
+				cur.Asserts = map[string][]*Clause{}
+			}
+			cur.Asserts[key] = append(cur.Asserts[key], mkClauses(l, body, fmt.Sprintf("assert%d", len(cur.Asserts[key])))...)
 		case "witness":
 			// witness <clause> <var> = <expr>
 			if cur == nil {
